@@ -55,12 +55,13 @@ type interpreter struct {
 	funcs              map[*ssa.Function]struct{}
 	nextCobj           int
 	cobjs              []*cobj
-	summaries          map[string]bool
+	summaries          map[string]string
 	crashArmed         bool
 	crashCount         int
 	natives            map[string]value
 	branches           int64
 	recent             []string
+	exactFmt           bool // format symbolic integers exactly (forks over their values)
 }
 
 var debugTrace = os.Getenv("GOSYM_TRACE") != ""
@@ -498,6 +499,11 @@ func callSSA(i *interpreter, caller *frame, callpos token.Pos, fn *ssa.Function,
 		i:      i,
 		caller: caller, // for panic/recover
 		fn:     fn,
+	}
+	if len(i.summaries) > 0 {
+		if kind, ok := i.summaries[fn.String()]; ok {
+			return summarizedCall(fr, fn, kind, args)
+		}
 	}
 	if ext := i.env.external(fn); ext != nil {
 		return ext(fr, args)
